@@ -636,7 +636,11 @@ func (c *rrComp) Run(h *hlib.History) ([]hlib.Mon, bool) {
 			if hasw != 0 {
 				so = append(so, roundrobin.Weight(int(w)))
 			}
-			err := rr.UpsertServer(mustParse(urlTable[id]), so...)
+			given := mustParse(urlTable[id])
+			err := rr.UpsertServer(given, so...)
+			// the administrator goes on using its URL value for something else: the pool keeps what it was given
+			given.Scheme, given.Host, given.Path, given.RawQuery = "ftp", "scratch.invalid:21", "/elsewhere", "reused=1"
+			given.User = url.UserPassword("reused", "reused")
 			want := ref.upsert(key, id, hasw, w, dw)
 			if want {
 				delete(removed, key)
@@ -658,7 +662,9 @@ func (c *rrComp) Run(h *hlib.History) ([]hlib.Mon, bool) {
 				return nil, false
 			}
 			before := r.dump()
-			err := rr.UpsertServer(mustParse(urlTable[id]), roundrobin.Weight(int(w1)), roundrobin.Weight(int(w2)))
+			given := mustParse(urlTable[id])
+			err := rr.UpsertServer(given, roundrobin.Weight(int(w1)), roundrobin.Weight(int(w2)))
+			given.Host = "scratch.invalid:21"
 			want := w1 >= 0 && w2 >= 0
 			if want {
 				ref.upsert(key, id, 1, w2, dw)
@@ -679,7 +685,9 @@ func (c *rrComp) Run(h *hlib.History) ([]hlib.Mon, bool) {
 				return nil, false
 			}
 			before := r.strings()
-			err := rr.RemoveServer(mustParse(urlTable[id]))
+			gone := mustParse(urlTable[id])
+			err := rr.RemoveServer(gone)
+			gone.Host = "scratch.invalid:21"
 			want := ref.remove(key)
 			if want {
 				removed[key] = true
